@@ -168,8 +168,18 @@ def _check_mono(run, mod, Q, cfg, ys):
             raises = all(_must_raise(m, head) for m in vt) and bool(vt)
             # on the ok edge, every path to the head assigns tracker = value
             ot = [m for (l, m) in tn.succ if l == ok_label]
+            offs = set() if not isinstance(tracker, tuple) else None
             upd = bool(ot) and all(
-                _must_assign(m, head, tracker, vexpr) for m in ot)
+                _must_assign(m, head, tracker, vexpr, offs) for m in ot)
+            if offs:
+                # accepted: value >= tracker + s (s = 1 for a strict
+                # comparison), tracker' = value + k: the next accepted
+                # value exceeds this one iff k + s >= 1 on every path
+                s_ = 1 if strict_ok else 0
+                strict_ok = min(offs) + s_ >= 1
+                init_strict = bool(s_)
+            else:
+                init_strict = strict_ok
             # initial value below the 8-bit domain
             if isinstance(tracker, tuple):
                 # the tracker is the last element of an accumulator list:
@@ -188,7 +198,7 @@ def _check_mono(run, mod, Q, cfg, ys):
             else:
                 init = _init_value(cfg, tracker, body)
                 init_ok = init is not None and (
-                    init < 0 if strict_ok else init <= 0)
+                    init < 0 if init_strict else init <= 0)
             msg = []
             if not raises:
                 msg.append("the out-of-order branch does not raise")
@@ -243,7 +253,7 @@ def _must_raise(start, head):
     return True
 
 
-def _must_assign(start, head, tracker, vexpr):
+def _must_assign(start, head, tracker, vexpr, offsets=None):
     """Every path from start to head passes `tracker = <vexpr>` (or a name
     holding it)."""
     vtxt = unparse(vexpr)
@@ -267,8 +277,21 @@ def _must_assign(start, head, tracker, vexpr):
             v = unparse(n.ast.value)
             if v == vtxt or v in al:
                 if t == tracker:
+                    if offsets is not None:
+                        offsets.add(0)
                     continue    # updated on this path
                 al = al | {t}
+            elif t == tracker and offsets is not None and isinstance(
+                    n.ast.value, ast.BinOp) and isinstance(
+                        n.ast.value.op, (ast.Add, ast.Sub)) and isinstance(
+                            n.ast.value.right, ast.Constant) and type(
+                                n.ast.value.right.value) is int and (
+                        unparse(n.ast.value.left) == vtxt or
+                        unparse(n.ast.value.left) in al):
+                # tracker = value + k: the bound the next value is held to
+                k = n.ast.value.right.value
+                offsets.add(k if isinstance(n.ast.value.op, ast.Add) else -k)
+                continue
         if n is head:
             return False
         if n.kind in ("exit", "raise_exit"):
@@ -489,6 +512,32 @@ def _check_dt_cases(run, mod, Q, cfg, ys, first):
         run.ob("R-DT-CASES", Q + "#poll-254-not-recorded", ok,
                "an answer of 254 can continue the poll", where(mod, y.node))
     run.floor("QueryNextDeviceType answer sites", nloop, 1)
+    # ... and only a list that holds something: a unit that announces
+    # several types (255) and then ends the list at once (254) is
+    # misbehaving, and `[]` would be wrong data ("no part 2xx type")
+    from ..cfg import forward_worlds
+    from ..seq import cond_edge_transfer, kill_conds_on_assign
+    W = forward_worlds(cfg, kill_conds_on_assign, cond_edge_transfer())
+    n_res = 0
+    for n in cfg.reachable:
+        if not (n.kind == "stmt" and isinstance(n.ast, ast.Return) and
+                isinstance(n.ast.value, ast.Name) and
+                n.ast.value.id in txt):
+            continue
+        n_res += 1
+        L = n.ast.value.id
+        nonempty = {(L, True), ("len(%s)" % L, True),
+                    ("len(%s) == 0" % L, False), ("len(%s) > 0" % L, True),
+                    ("len(%s) >= 1" % L, True), ("%s == []" % L, False),
+                    ("0 == len(%s)" % L, False), ("len(%s) < 1" % L, False)}
+        ok = bool(W.at(n)) and all(any(
+            f[0] == "cond" and (f[1], f[2]) in nonempty for f in w)
+            for w in W.at(n))
+        run.ob("R-DT-CASES", Q + "#poll-result-not-empty", ok,
+               "the poll can return `%s` without having tested it to hold "
+               "an entry: for the answers 255, 254 the sequence returns [] "
+               "instead of raising DALISequenceError" % L, where(mod, n))
+    run.floor("returns of the polled list", n_res, 1)
     # the accumulated list is appended with the received value in the loop
     app = []
     for n in cfg.reachable:
@@ -506,6 +555,59 @@ def _check_dt_cases(run, mod, Q, cfg, ys, first):
 
 
 # ---------------------------------------------------------------------------
+def _index_frame_iteration(fn):
+    """`for i, m in enumerate(W)` / `for m in W` over a frame W that is the
+    concatenation of n backward frames (`a.raw_value + b.raw_value`, each 8
+    bits wide by construction of BackwardFrame) reads W[0] .. W[8n-1] in
+    order (a Frame has no __iter__: the sequence protocol indexes it until
+    IndexError).  Written here as the loop over range(8n) it abbreviates."""
+    from .. import astq
+    from ..inline import acopy
+    defs = astq._defs(fn)
+
+    def width(e, depth=0):
+        if depth > 4:
+            return None
+        if isinstance(e, ast.Name) and e.id in defs:
+            return width(defs[e.id], depth + 1)
+        if isinstance(e, ast.Attribute) and e.attr == "raw_value":
+            return 8
+        if isinstance(e, ast.BinOp) and isinstance(e.op, ast.Add):
+            a, b = width(e.left, depth + 1), width(e.right, depth + 1)
+            return a + b if a and b else None
+        return None
+    changed = False
+    fn2 = acopy(fn)
+    for n in ast.walk(fn2):
+        if not isinstance(n, ast.For) or n.orelse:
+            continue
+        it = n.iter
+        idx = None
+        if isinstance(it, ast.Call) and unparse(it.func) == "enumerate" and \
+                len(it.args) == 1 and not it.keywords and isinstance(
+                    n.target, ast.Tuple) and len(n.target.elts) == 2 and \
+                all(isinstance(x, ast.Name) for x in n.target.elts):
+            idx, mem, seq = n.target.elts[0].id, n.target.elts[1].id, \
+                it.args[0]
+        elif isinstance(n.target, ast.Name) and isinstance(it, ast.Name):
+            idx, mem, seq = "__bit", n.target.id, it
+        else:
+            continue
+        w = width(seq)
+        if not w:
+            continue
+        n.target = ast.Name(idx, ast.Store())
+        n.iter = ast.Call(ast.Name("range", ast.Load()),
+                          [ast.Constant(w)], [])
+        n.body = [ast.Assign([ast.Name(mem, ast.Store())], ast.Subscript(
+            acopy(seq), ast.Name(idx, ast.Load()), ast.Load()))] + n.body
+        changed = True
+    if not changed:
+        return fn
+    ast.fix_missing_locations(fn2)
+    return fn2
+
+
 def _check_concat(run, mod, G, cfg, ys, fn):
     run.rule("R-CONCAT", "group word = (groups 8-15 answer) + (groups 0-7 "
              "answer); bit i <-> group i for i in range(16)")
@@ -526,6 +628,7 @@ def _check_concat(run, mod, G, cfg, ys, fn):
     # expanded: what remains is one guarded `add` per group
     from ..unroll import detable
     from .. import astq
+    fn = _index_frame_iteration(fn)
     fx, _info = detable(fn, ranges=16)
     defs = astq._defs(fx)
     parent = {}
@@ -595,6 +698,11 @@ def _check_concat(run, mod, G, cfg, ys, fn):
         r_ = int_bit_source(test)
         if r_ is not None:
             return r_
+        if isinstance(test, ast.Name) and test.id in defs and isinstance(
+                defs[test.id], ast.Subscript):
+            # `member = W[j]` bound once (per unrolled iteration)
+            test = astq.resolve(fx, defs[test.id], defs={
+                k_: v_ for k_, v_ in defs.items() if k_ != test.id})
         if not (isinstance(test, ast.Subscript) and isinstance(
                 test.slice, ast.Constant) and type(test.slice.value) is int):
             return None
@@ -780,6 +888,26 @@ def _check_setgroups(run, world, mod, S, cfg, ys, fn):
                        "leaves groups set that were not requested)" % (
                            it, pred.show(allc) or "never"),
                        where(mod, lnode[0]))
+        if ok and full and loop is not None:
+            # in the blind write nothing but the mode and membership of the
+            # group in the request decides what is sent for a group: each of
+            # the 16 gets its Add or its Remove
+            i_ = unparse(loop.target)
+            memb = ("p", "%s in %s" % (i_, grp), True)
+            is_add_ = _is(y, "AddToGroup")
+            allc = _project(_path_conds(cfg, y.node, world), lambda a: True)
+            want_all = frozenset([frozenset(
+                [pred.neg_atom(isS), pred.neg_atom(isI),
+                 memb if is_add_ else pred.neg_atom(memb)])])
+            okall, _w = pred.equivalent(allc, want_all)
+            run.ob("R-SETGRP", "%s#only-membership-decides:%s" % (S, y.name),
+                   okall,
+                   "in the blind write %s is sent when %s; it must be sent "
+                   "for every group that is %s the request and for no other "
+                   "reason withheld (a group skipped keeps whatever "
+                   "membership the units had)" % (
+                       y.name, pred.show(allc) or "never",
+                       "in" if is_add_ else "not in"), where(mod, y.node))
         run.ob("R-SETGRP", "%s#mode-test:%s[%s]" % (
             S, y.name if not y.is_from else "QueryGroups",
             "full" if full else "diff"), ok,
